@@ -50,7 +50,7 @@ def run_one(item):
     tmp = tempfile.mkdtemp(prefix="cmut_")
     dst = os.path.join(tmp, "repo")
     try:
-        subprocess.check_call(["rsync", "-a", "--exclude", ".git", "--exclude", "build", "/repo/", dst + "/"])
+        os.makedirs(dst, exist_ok=True); subprocess.check_call("git -C /repo archive HEAD | tar -x -C %s" % dst, shell=True)
         lines = list(src)
         lines[i] = newline
         open(os.path.join(dst, rel), "w").write("\n".join(lines))
